@@ -171,6 +171,25 @@ theorem countP_pos_get (p : Local → Bool) {l : List Local} {t : Nat} {a : Loca
 @[simp] theorem countP_isLive_wakeShut (l : List Local) : (l.map wakeShut).countP isLive = l.countP isLive :=
   countP_map_eq _ _ _ l (by intro x; simp)
 
+@[simp] theorem countP_holdsP_wakeTask (l : List Local) : (l.map wakeTask).countP holdsP = l.countP holdsP :=
+  countP_map_eq _ _ _ l (by intro x; simp)
+@[simp] theorem countP_holdsP_wakeAvail (l : List Local) : (l.map wakeAvail).countP holdsP = l.countP holdsP :=
+  countP_map_eq _ _ _ l (by intro x; simp)
+@[simp] theorem countP_holdsP_wakeShut (l : List Local) : (l.map wakeShut).countP holdsP = l.countP holdsP :=
+  countP_map_eq _ _ _ l (by intro x; simp)
+@[simp] theorem countP_holdsG_wakeTask (l : List Local) : (l.map wakeTask).countP holdsG = l.countP holdsG :=
+  countP_map_eq _ _ _ l (by intro x; simp)
+@[simp] theorem countP_holdsG_wakeAvail (l : List Local) : (l.map wakeAvail).countP holdsG = l.countP holdsG :=
+  countP_map_eq _ _ _ l (by intro x; simp)
+@[simp] theorem countP_holdsG_wakeShut (l : List Local) : (l.map wakeShut).countP holdsG = l.countP holdsG :=
+  countP_map_eq _ _ _ l (by intro x; simp)
+
+/-- 1 if the mutex is held -/
+def lockN (o : Option Nat) : Nat := if o.isSome then 1 else 0
+@[simp] theorem lockN_none : lockN none = 0 := rfl
+@[simp] theorem lockN_some (t : Nat) : lockN (some t) = 1 := rfl
+theorem lockN_le_one (o : Option Nat) : lockN o ≤ 1 := by cases o <;> simp
+
 theorem countP_endThread (p : Local → Bool) (hp : ∀ x, p (wakeShut x) = p x) (s : State) :
     (endThread s).threads.countP p = s.threads.countP p := by
   unfold endThread
@@ -202,22 +221,30 @@ structure CInv (s : State) : Prop where
   queue : s.queue.length ≤ s.threads.countP isAwake
   /-- `thread_count` = group threads that have not ended -/
   live : s.threadCount = s.threads.countP isLive
+  /-- mutual exclusion: the threads inside a critical section of a mutex are exactly its holder -/
+  lockP : s.threads.countP holdsP = lockN s.pLock
+  lockG : s.threads.countP holdsG = lockN s.gLock
 
 /-- closes a goal about counts after thread `t` (with `hg : s.threads[t]? = some a`) moved -/
 macro "count_close" hg:ident : tactic => `(tactic| (
   have q1 := countP_pos_get isReg $hg
   have q2 := countP_pos_get isAwake $hg
   have q3 := countP_pos_get isLive $hg
-  simp only [countP_isReg_wakeTask, countP_isAwake_wakeTask, countP_isLive_wakeTask, countP_isReg_wakeAvail,
+  have q4 := countP_pos_get holdsP $hg
+  have q5 := countP_pos_get holdsG $hg
+  simp only [countP_holdsP_wakeTask, countP_holdsP_wakeAvail, countP_holdsP_wakeShut, countP_holdsG_wakeTask,
+    countP_holdsG_wakeAvail, countP_holdsG_wakeShut, countP_endThread holdsP holdsP_wakeShut,
+    countP_endThread holdsG holdsG_wakeShut, endThread_gLock, endThread_pLock, lockN_none, lockN_some,
+    countP_isReg_wakeTask, countP_isAwake_wakeTask, countP_isLive_wakeTask, countP_isReg_wakeAvail,
     countP_isAwake_wakeAvail, countP_isLive_wakeAvail, countP_isReg_wakeShut, countP_isAwake_wakeShut,
     countP_isLive_wakeShut, countP_endThread isReg isReg_wakeShut, countP_endThread isAwake isAwake_wakeShut,
     countP_endThread isLive isLive_wakeShut, endThread_available, endThread_stale, endThread_pShutting,
     endThread_queue, endThread_threadCount,
     countP_set_get _ $hg, List.countP_append, List.countP_cons, List.countP_nil]
-  simp only [isReg, isAwake, isLive, Bool.false_eq_true, ↓reduceIte, Nat.add_zero, Nat.sub_zero, Nat.zero_le] at q1 q2 q3 ⊢
+  simp only [isReg, isAwake, isLive, holdsP, holdsG, Bool.false_eq_true, ↓reduceIte, Nat.add_zero, Nat.sub_zero, Nat.zero_le] at q1 q2 q3 q4 q5 ⊢
   try omega))
 
-theorem cinv_init : CInv init := ⟨rfl, by simp [init], by simp [init], rfl⟩
+theorem cinv_init : CInv init := ⟨rfl, by simp [init], by simp [init], rfl, rfl, rfl⟩
 
 theorem cinv_acq {s s' : State} {t : Nat} (h : CInv s) (hn : nextAcq s t = some s') : CInv s' := by
   unfold nextAcq at hn
@@ -225,11 +252,14 @@ theorem cinv_acq {s s' : State} {t : Nat} (h : CInv s) (hn : nextAcq s t = some 
   | none => simp [hg] at hn
   | some l =>
     simp only [hg] at hn
-    obtain ⟨h1, h2, h3, h4⟩ := h
+    obtain ⟨h1, h2, h3, h4, h5, h6⟩ := h
+    have l1 := lockN_le_one s.pLock
+    have l2 := lockN_le_one s.gLock
     cases l <;> try simp at hn
     all_goals (
       obtain ⟨hgd, rfl⟩ := hn
-      refine ⟨?_, ?_, ?_, ?_⟩ <;> simp only [State.setT]
+      simp only [hgd, lockN_none] at h5 h6
+      refine ⟨?_, ?_, ?_, ?_, ?_, ?_⟩ <;> simp only [State.setT]
       all_goals first | exact h2 | count_close hg)
 
 theorem cinv_spawn {s s' : State} {t : Nat} {fails : Bool} (h : CInv s) (hn : nextSpawn s t fails = some s') : CInv s' := by
@@ -238,26 +268,30 @@ theorem cinv_spawn {s s' : State} {t : Nat} {fails : Bool} (h : CInv s) (hn : ne
   | none => simp [hg] at hn
   | some l =>
     simp only [hg] at hn
-    obtain ⟨h1, h2, h3, h4⟩ := h
+    obtain ⟨h1, h2, h3, h4, h5, h6⟩ := h
+    have l1 := lockN_le_one s.pLock
+    have l2 := lockN_le_one s.gLock
     cases l <;> try simp at hn
     case spInG n =>
       cases n <;> simp at hn
       obtain ⟨hgd, rfl⟩ := hn
-      refine ⟨?_, ?_, ?_, ?_⟩ <;> simp only [State.setT]
+      refine ⟨?_, ?_, ?_, ?_, ?_, ?_⟩ <;> simp only [State.setT]
       all_goals first | exact h2 | count_close hg
     case sosInG k =>
       obtain ⟨hgd, hn⟩ := hn
-      cases fails <;> simp at hn <;> subst hn <;> refine ⟨?_, ?_, ?_, ?_⟩ <;> simp only [State.setT]
+      cases fails <;> simp at hn <;> subst hn <;> refine ⟨?_, ?_, ?_, ?_, ?_, ?_⟩ <;> simp only [State.setT]
       all_goals first | exact h2 | count_close hg
     case rhInG f =>
       obtain ⟨hgd, hn⟩ := hn
-      cases fails <;> simp at hn <;> subst hn <;> refine ⟨?_, ?_, ?_, ?_⟩ <;> simp only [State.setT]
+      cases fails <;> simp at hn <;> subst hn <;> refine ⟨?_, ?_, ?_, ?_, ?_, ?_⟩ <;> simp only [State.setT]
       all_goals first | exact h2 | count_close hg
 
 theorem cinv_simple {s s' : State} {t : Nat} (h : CInv s)
     (hn : nextTimeout s t = some s' ∨ nextSpurious s t = some s' ∨ nextRun s t = some s' ∨
       (∃ cfg, nextFin cfg s t = some s')) : CInv s' := by
-  obtain ⟨h1, h2, h3, h4⟩ := h
+  obtain ⟨h1, h2, h3, h4, h5, h6⟩ := h
+  have l1 := lockN_le_one s.pLock
+  have l2 := lockN_le_one s.gLock
   cases hg : s.threads[t]? with
   | none =>
     rcases hn with hn | hn | hn | ⟨cfg, hn⟩ <;>
@@ -270,36 +304,36 @@ theorem cinv_simple {s s' : State} {t : Nat} (h : CInv s)
       case wWait w =>
         cases w <;> simp at hn
         subst hn
-        refine ⟨?_, ?_, ?_, ?_⟩ <;> simp only [State.setT]
+        refine ⟨?_, ?_, ?_, ?_, ?_, ?_⟩ <;> simp only [State.setT]
         all_goals first | exact h2 | count_close hg
       case rhWait =>
         subst hn
-        refine ⟨?_, ?_, ?_, ?_⟩ <;> simp only [State.setT]
+        refine ⟨?_, ?_, ?_, ?_, ?_, ?_⟩ <;> simp only [State.setT]
         all_goals first | exact h2 | count_close hg
     · unfold nextSpurious at hn
       rw [hg] at hn
       cases l <;> try simp at hn
       all_goals (
         subst hn
-        refine ⟨?_, ?_, ?_, ?_⟩ <;> simp only [State.setT]
+        refine ⟨?_, ?_, ?_, ?_, ?_, ?_⟩ <;> simp only [State.setT]
         all_goals first | exact h2 | count_close hg)
     · unfold nextRun at hn
       rw [hg] at hn
       cases l <;> try simp at hn
       all_goals (
         subst hn
-        refine ⟨?_, ?_, ?_, ?_⟩ <;> simp only [State.setT]
+        refine ⟨?_, ?_, ?_, ?_, ?_, ?_⟩ <;> simp only [State.setT]
         all_goals first | exact h2 | count_close hg)
     · unfold nextFin at hn
       rw [hg] at hn
       cases l <;> try simp at hn
       case wRunning w k =>
         subst hn
-        refine ⟨?_, ?_, ?_, ?_⟩ <;> simp only [State.setT]
+        refine ⟨?_, ?_, ?_, ?_, ?_, ?_⟩ <;> simp only [State.setT]
         all_goals first | exact h2 | count_close hg
       case auxRunning k =>
         subst hn
-        cases cfg.linger <;> refine ⟨?_, ?_, ?_, ?_⟩ <;> simp only [State.setT]
+        cases cfg.linger <;> refine ⟨?_, ?_, ?_, ?_, ?_, ?_⟩ <;> simp only [State.setT]
         all_goals first | exact h2 | count_close hg
 
 /-- closes a count goal after thread `t` moved (`hg`) and then thread `u` was woken (`hu`, a fact
@@ -311,9 +345,13 @@ macro "count_close2" hg:ident hu:ident : tactic => `(tactic| (
   have r1 := countP_pos_get isReg $hu
   have r2 := countP_pos_get isAwake $hu
   have r3 := countP_pos_get isLive $hu
-  simp only [countP_set_get _ $hu] at r1 r2 r3 ⊢
-  simp only [countP_set_get _ $hg, List.countP_append, List.countP_cons, List.countP_nil] at r1 r2 r3 ⊢
-  simp only [isReg, isAwake, isLive, wakeTask, wakeAvail, Bool.false_eq_true, ↓reduceIte, Nat.add_zero, Nat.sub_zero, Nat.zero_le] at q1 q2 q3 r1 r2 r3 ⊢
+  have q4 := countP_pos_get holdsP $hg
+  have q5 := countP_pos_get holdsG $hg
+  have r4 := countP_pos_get holdsP $hu
+  have r5 := countP_pos_get holdsG $hu
+  simp only [countP_set_get _ $hu] at r1 r2 r3 r4 r5 ⊢
+  simp only [countP_set_get _ $hg, List.countP_append, List.countP_cons, List.countP_nil, lockN_none, lockN_some] at r1 r2 r3 r4 r5 ⊢
+  simp only [isReg, isAwake, isLive, holdsP, holdsG, wakeTask, wakeAvail, Bool.false_eq_true, ↓reduceIte, Nat.add_zero, Nat.sub_zero, Nat.zero_le] at q1 q2 q3 q4 q5 r1 r2 r3 r4 r5 ⊢
   try omega))
 
 theorem isWWait_eq {l : Local} (h : isWWait l = true) : ∃ w, l = .wWait w := by
@@ -338,7 +376,9 @@ theorem cinv_push {s s' : State} {t k : Nat} {target : Option Nat} {a : Local} (
     (hg : s.threads[t]? = some a) (ha : a = .subInP k ∨ a = .sosInP k) (hav : s.available > s.queue.length)
     (hsh : s.pShutting = false)
     (hn : pushTask s t k target = some s') : CInv s' := by
-  obtain ⟨h1, h2, h3, h4⟩ := h
+  obtain ⟨h1, h2, h3, h4, h5, h6⟩ := h
+  have l1 := lockN_le_one s.pLock
+  have l2 := lockN_le_one s.gLock
   have hst : s.stale = 0 := by
     rcases Nat.eq_zero_or_pos s.stale with h0 | h0
     · exact h0
@@ -353,29 +393,32 @@ theorem cinv_push {s s' : State} {t k : Nat} {target : Option Nat} {a : Local} (
     have e2 := countP_set_get (p := isAwake) .idle hg
     have e3 := countP_set_get (p := isLive) .idle hg
     have e4 := countP_set_get (p := isWWait) .idle hg
+    have e5 := countP_set_get (p := holdsP) .idle hg
+    have e6 := countP_set_get (p := holdsG) .idle hg
+    have p5 := countP_pos_get holdsP hg
     rcases notifyOne_spec hno with ⟨_, hz, rfl⟩ | ⟨u, l, _, hu, hw, rfl⟩
     · -- nobody sleeps: every registered worker is awake
-      simp only [isReg, isAwake, isLive, isWWait, Bool.false_eq_true, ↓reduceIte, Nat.add_zero, Nat.sub_zero] at e1 e2 e3 e4
-      refine ⟨?_, h2, ?_, ?_⟩ <;> simp only [List.length_append, List.length_cons, List.length_nil]
-      · omega
-      · omega
-      · omega
+      simp only [isReg, isAwake, isLive, isWWait, holdsP, holdsG, Bool.false_eq_true, ↓reduceIte, Nat.add_zero, Nat.sub_zero] at e1 e2 e3 e4 e5 e6 p5
+      refine ⟨?_, h2, ?_, ?_, ?_, ?_⟩ <;> simp only [List.length_append, List.length_cons, List.length_nil, lockN_none]
+      all_goals omega
     · obtain ⟨w, rfl⟩ := isWWait_eq hw
       have f1 := countP_set_get (p := isReg) (wakeTask (.wWait w)) hu
       have f2 := countP_set_get (p := isAwake) (wakeTask (.wWait w)) hu
       have f3 := countP_set_get (p := isLive) (wakeTask (.wWait w)) hu
+      have f5 := countP_set_get (p := holdsP) (wakeTask (.wWait w)) hu
+      have f6 := countP_set_get (p := holdsG) (wakeTask (.wWait w)) hu
       have r1 := countP_pos_get isReg hu
       have r3 := countP_pos_get isLive hu
-      simp only [isReg, isAwake, isLive, isWWait, wakeTask, Bool.false_eq_true, ↓reduceIte, Nat.add_zero, Nat.sub_zero] at e1 e2 e3 e4 f1 f2 f3 r1 r3
-      refine ⟨?_, h2, ?_, ?_⟩ <;> simp only [List.length_append, List.length_cons, List.length_nil, wakeTask]
-      · omega
-      · omega
-      · omega)
+      simp only [isReg, isAwake, isLive, isWWait, holdsP, holdsG, wakeTask, Bool.false_eq_true, ↓reduceIte, Nat.add_zero, Nat.sub_zero] at e1 e2 e3 e4 e5 e6 p5 f1 f2 f3 f5 f6 r1 r3
+      refine ⟨?_, h2, ?_, ?_, ?_, ?_⟩ <;> simp only [List.length_append, List.length_cons, List.length_nil, wakeTask, lockN_none]
+      all_goals omega)
 
 theorem cinv_relWorker {cfg : Cfg} {s s' : State} {t : Nat} {w : WKind} {reg to : Bool} {target : Option Nat} {dl : Bool}
     (hf : cfg.fixed = true) (h : CInv s) (hg : s.threads[t]? = some (.wInP w reg to))
     (hn : relWorker cfg s t w reg to target dl = some s') : CInv s' := by
-  obtain ⟨h1, h2, h3, h4⟩ := h
+  obtain ⟨h1, h2, h3, h4, h5, h6⟩ := h
+  have l1 := lockN_le_one s.pLock
+  have l2 := lockN_le_one s.gLock
   unfold relWorker at hn
   cases reg
   · cases to <;> cases hq : s.queue <;> cases hps : s.pShutting <;> cases w <;> cases dl <;>
@@ -384,17 +427,17 @@ theorem cinv_relWorker {cfg : Cfg} {s s' : State} {t : Nat} {w : WKind} {reg to 
     all_goals (
       obtain ⟨ths, hno, rfl⟩ := hn
       rcases notifyOne_spec hno with ⟨_, _, rfl⟩ | ⟨u, l, _, hu, hw, rfl⟩
-      · refine ⟨?_, ?_, ?_, ?_⟩ <;> (try simp only [List.length_cons, List.length_nil])
+      · refine ⟨?_, ?_, ?_, ?_, ?_, ?_⟩ <;> (try simp only [List.length_cons, List.length_nil])
         all_goals first | exact h2 | (intro _; rfl) | (intro _; trivial) | count_close hg
       · obtain ⟨k', rfl⟩ := isSubWait_eq hw
-        refine ⟨?_, ?_, ?_, ?_⟩ <;> (try simp only [List.length_cons, List.length_nil])
+        refine ⟨?_, ?_, ?_, ?_, ?_, ?_⟩ <;> (try simp only [List.length_cons, List.length_nil])
         all_goals first | exact h2 | (intro _; rfl) | (intro _; trivial) | count_close2 hg hu)
   · cases to <;> cases hq : s.queue <;> cases hps : s.pShutting <;> cases w <;> cases dl <;>
       simp [hf, hq, hps, State.setT] at hn <;>
       rw [hq] at h3 <;> rw [hps] at h2 <;> (try simp only [List.length_cons, List.length_nil] at h3)
     all_goals (
       obtain ⟨_, rfl⟩ := hn
-      refine ⟨?_, ?_, ?_, ?_⟩ <;> (try simp only [List.length_cons, List.length_nil])
+      refine ⟨?_, ?_, ?_, ?_, ?_, ?_⟩ <;> (try simp only [List.length_cons, List.length_nil])
       all_goals first | exact h2 | (intro _; rfl) | (intro _; trivial) | count_close hg)
 
 theorem cinv_rel {cfg : Cfg} {s s' : State} {t : Nat} {target : Option Nat} {flag : Bool}
@@ -408,15 +451,19 @@ theorem cinv_rel {cfg : Cfg} {s s' : State} {t : Nat} {target : Option Nat} {fla
     case spInG n =>
       cases n <;> simp at hn
       obtain ⟨_, rfl⟩ := hn
-      obtain ⟨h1, h2, h3, h4⟩ := h
-      refine ⟨?_, ?_, ?_, ?_⟩ <;> simp only [State.setT]
+      obtain ⟨h1, h2, h3, h4, h5, h6⟩ := h
+      have l1 := lockN_le_one s.pLock
+      have l2 := lockN_le_one s.gLock
+      refine ⟨?_, ?_, ?_, ?_, ?_, ?_⟩ <;> simp only [State.setT]
       all_goals first | exact h2 | count_close hg
     case subInP k =>
       by_cases hps : s.pShutting = true
       · simp [hps] at hn
         obtain ⟨_, rfl⟩ := hn
-        obtain ⟨h1, h2, h3, h4⟩ := h
-        refine ⟨?_, ?_, ?_, ?_⟩ <;> simp only [State.setT]
+        obtain ⟨h1, h2, h3, h4, h5, h6⟩ := h
+        have l1 := lockN_le_one s.pLock
+        have l2 := lockN_le_one s.gLock
+        refine ⟨?_, ?_, ?_, ?_, ?_, ?_⟩ <;> simp only [State.setT]
         all_goals first | exact h2 | count_close hg
       · have hps' : s.pShutting = false := by simpa using hps
         simp [hps'] at hn
@@ -425,15 +472,19 @@ theorem cinv_rel {cfg : Cfg} {s s' : State} {t : Nat} {target : Option Nat} {fla
           exact cinv_push h hg (Or.inl rfl) hav hps' hn
         · simp [hav] at hn
           obtain ⟨_, rfl⟩ := hn
-          obtain ⟨h1, h2, h3, h4⟩ := h
-          refine ⟨?_, ?_, ?_, ?_⟩ <;> simp only [State.setT]
+          obtain ⟨h1, h2, h3, h4, h5, h6⟩ := h
+          have l1 := lockN_le_one s.pLock
+          have l2 := lockN_le_one s.gLock
+          refine ⟨?_, ?_, ?_, ?_, ?_, ?_⟩ <;> simp only [State.setT]
           all_goals first | exact h2 | count_close hg
     case sosInP k =>
       by_cases hps : s.pShutting = true
       · simp [hps] at hn
         obtain ⟨_, rfl⟩ := hn
-        obtain ⟨h1, h2, h3, h4⟩ := h
-        refine ⟨?_, ?_, ?_, ?_⟩ <;> simp only [State.setT]
+        obtain ⟨h1, h2, h3, h4, h5, h6⟩ := h
+        have l1 := lockN_le_one s.pLock
+        have l2 := lockN_le_one s.gLock
+        refine ⟨?_, ?_, ?_, ?_, ?_, ?_⟩ <;> simp only [State.setT]
         all_goals first | exact h2 | count_close hg
       · have hps' : s.pShutting = false := by simpa using hps
         simp [hps'] at hn
@@ -442,72 +493,96 @@ theorem cinv_rel {cfg : Cfg} {s s' : State} {t : Nat} {target : Option Nat} {fla
           exact cinv_push h hg (Or.inr rfl) hav hps' hn
         · simp [hav] at hn
           obtain ⟨_, rfl⟩ := hn
-          obtain ⟨h1, h2, h3, h4⟩ := h
-          refine ⟨?_, ?_, ?_, ?_⟩ <;> simp only [State.setT]
+          obtain ⟨h1, h2, h3, h4, h5, h6⟩ := h
+          have l1 := lockN_le_one s.pLock
+          have l2 := lockN_le_one s.gLock
+          refine ⟨?_, ?_, ?_, ?_, ?_, ?_⟩ <;> simp only [State.setT]
           all_goals first | exact h2 | count_close hg
     case wInP w reg to => exact cinv_relWorker hf h hg hn
     case sosInG k =>
       obtain ⟨_, _, rfl⟩ := hn
-      obtain ⟨h1, h2, h3, h4⟩ := h
-      refine ⟨?_, ?_, ?_, ?_⟩ <;> simp only [State.setT]
+      obtain ⟨h1, h2, h3, h4, h5, h6⟩ := h
+      have l1 := lockN_le_one s.pLock
+      have l2 := lockN_le_one s.gLock
+      refine ⟨?_, ?_, ?_, ?_, ?_, ?_⟩ <;> simp only [State.setT]
       all_goals first | exact h2 | count_close hg
     case sosInG2 k =>
       obtain ⟨_, rfl⟩ := hn
-      obtain ⟨h1, h2, h3, h4⟩ := h
-      refine ⟨?_, ?_, ?_, ?_⟩ <;> simp only [State.setT]
+      obtain ⟨h1, h2, h3, h4, h5, h6⟩ := h
+      have l1 := lockN_le_one s.pLock
+      have l2 := lockN_le_one s.gLock
+      refine ⟨?_, ?_, ?_, ?_, ?_, ?_⟩ <;> simp only [State.setT]
       all_goals first | exact h2 | count_close hg
     case shInG =>
       obtain ⟨_, _, rfl⟩ := hn
-      obtain ⟨h1, h2, h3, h4⟩ := h
-      refine ⟨?_, ?_, ?_, ?_⟩ <;> simp only [State.setT]
+      obtain ⟨h1, h2, h3, h4, h5, h6⟩ := h
+      have l1 := lockN_le_one s.pLock
+      have l2 := lockN_le_one s.gLock
+      refine ⟨?_, ?_, ?_, ?_, ?_, ?_⟩ <;> simp only [State.setT]
       all_goals first | exact h2 | count_close hg
     case shInP =>
       obtain ⟨_, rfl⟩ := hn
-      obtain ⟨h1, h2, h3, h4⟩ := h
+      obtain ⟨h1, h2, h3, h4, h5, h6⟩ := h
+      have l1 := lockN_le_one s.pLock
+      have l2 := lockN_le_one s.gLock
       have hsplit := reg_eq_awake_add_wait s.threads
-      refine ⟨?_, ?_, ?_, ?_⟩ <;> simp only [State.setT]
+      refine ⟨?_, ?_, ?_, ?_, ?_, ?_⟩ <;> simp only [State.setT]
       all_goals first | (intro _; trivial) | count_close hg
     case shInG2 =>
       obtain ⟨_, rfl⟩ := hn
-      obtain ⟨h1, h2, h3, h4⟩ := h
-      refine ⟨?_, ?_, ?_, ?_⟩ <;> simp only [State.setT]
+      obtain ⟨h1, h2, h3, h4, h5, h6⟩ := h
+      have l1 := lockN_le_one s.pLock
+      have l2 := lockN_le_one s.gLock
+      refine ⟨?_, ?_, ?_, ?_, ?_, ?_⟩ <;> simp only [State.setT]
       all_goals first | exact h2 | count_close hg
     case pshInG =>
       obtain ⟨_, _, rfl⟩ := hn
-      obtain ⟨h1, h2, h3, h4⟩ := h
-      refine ⟨?_, ?_, ?_, ?_⟩ <;> simp only [State.setT]
+      obtain ⟨h1, h2, h3, h4, h5, h6⟩ := h
+      have l1 := lockN_le_one s.pLock
+      have l2 := lockN_le_one s.gLock
+      refine ⟨?_, ?_, ?_, ?_, ?_, ?_⟩ <;> simp only [State.setT]
       all_goals first | exact h2 | count_close hg
     case pshInP =>
       obtain ⟨_, rfl⟩ := hn
-      obtain ⟨h1, h2, h3, h4⟩ := h
+      obtain ⟨h1, h2, h3, h4, h5, h6⟩ := h
+      have l1 := lockN_le_one s.pLock
+      have l2 := lockN_le_one s.gLock
       have hsplit := reg_eq_awake_add_wait s.threads
-      refine ⟨?_, ?_, ?_, ?_⟩ <;> simp only [State.setT]
+      refine ⟨?_, ?_, ?_, ?_, ?_, ?_⟩ <;> simp only [State.setT]
       all_goals first | (intro _; trivial) | count_close hg
     case awInG =>
-      obtain ⟨h1, h2, h3, h4⟩ := h
+      obtain ⟨h1, h2, h3, h4, h5, h6⟩ := h
+      have l1 := lockN_le_one s.pLock
+      have l2 := lockN_le_one s.gLock
       split at hn <;> simp at hn <;> obtain ⟨_, rfl⟩ := hn <;>
-        refine ⟨?_, ?_, ?_, ?_⟩ <;> simp only [State.setT]
+        refine ⟨?_, ?_, ?_, ?_, ?_, ?_⟩ <;> simp only [State.setT]
       all_goals first | exact h2 | count_close hg
     case endInG =>
       obtain ⟨_, rfl⟩ := hn
-      obtain ⟨h1, h2, h3, h4⟩ := h
-      refine ⟨?_, ?_, ?_, ?_⟩ <;> simp only [State.setT]
+      obtain ⟨h1, h2, h3, h4, h5, h6⟩ := h
+      have l1 := lockN_le_one s.pLock
+      have l2 := lockN_le_one s.gLock
+      refine ⟨?_, ?_, ?_, ?_, ?_, ?_⟩ <;> simp only [State.setT]
       all_goals first | exact h2 | count_close hg
     case rhInG f =>
-      obtain ⟨h1, h2, h3, h4⟩ := h
+      obtain ⟨h1, h2, h3, h4, h5, h6⟩ := h
+      have l1 := lockN_le_one s.pLock
+      have l2 := lockN_le_one s.gLock
       split at hn
       · simp at hn
         obtain ⟨_, rfl⟩ := hn
-        refine ⟨?_, ?_, ?_, ?_⟩ <;> simp only [State.setT]
+        refine ⟨?_, ?_, ?_, ?_, ?_, ?_⟩ <;> simp only [State.setT]
         all_goals first | exact h2 | count_close hg
       · split at hn <;> simp at hn
         obtain ⟨_, rfl⟩ := hn
-        refine ⟨?_, ?_, ?_, ?_⟩ <;> simp only [State.setT]
+        refine ⟨?_, ?_, ?_, ?_, ?_, ?_⟩ <;> simp only [State.setT]
         all_goals first | exact h2 | count_close hg
     case rhInG2 =>
       obtain ⟨_, rfl⟩ := hn
-      obtain ⟨h1, h2, h3, h4⟩ := h
-      refine ⟨?_, ?_, ?_, ?_⟩ <;> simp only [State.setT]
+      obtain ⟨h1, h2, h3, h4, h5, h6⟩ := h
+      have l1 := lockN_le_one s.pLock
+      have l2 := lockN_le_one s.gLock
+      refine ⟨?_, ?_, ?_, ?_, ?_, ?_⟩ <;> simp only [State.setT]
       all_goals first | exact h2 | count_close hg
 
 theorem isIdle_get {s : State} {t : Nat} (h : isIdle s t = true) : s.threads[t]? = some .idle := by
@@ -519,8 +594,10 @@ theorem cinv_next {cfg : Cfg} {s s' : State} {l : Label} (hf : cfg.fixed = true)
   cases l with
   | arrive =>
     simp [next] at hn; subst hn
-    obtain ⟨h1, h2, h3, h4⟩ := h
-    refine ⟨?_, h2, ?_, ?_⟩ <;> simp [List.countP_append, isReg, isAwake, isLive] <;> assumption
+    obtain ⟨h1, h2, h3, h4, h5, h6⟩ := h
+    have l1 := lockN_le_one s.pLock
+    have l2 := lockN_le_one s.gLock
+    refine ⟨?_, h2, ?_, ?_, ?_, ?_⟩ <;> simp [List.countP_append, isReg, isAwake, isLive] <;> assumption
   | acq t => exact cinv_acq h hn
   | spawn t f => exact cinv_spawn h hn
   | rel t tg fl => exact cinv_rel hf h hn
@@ -534,8 +611,10 @@ theorem cinv_next {cfg : Cfg} {s s' : State} {l : Label} (hf : cfg.fixed = true)
     rename_i hc; simp at hc
     have hg := isIdle_get hc.1
     subst hn
-    obtain ⟨h1, h2, h3, h4⟩ := h
-    refine ⟨?_, ?_, ?_, ?_⟩ <;> simp only [State.setT]
+    obtain ⟨h1, h2, h3, h4, h5, h6⟩ := h
+    have l1 := lockN_le_one s.pLock
+    have l2 := lockN_le_one s.gLock
+    refine ⟨?_, ?_, ?_, ?_, ?_, ?_⟩ <;> simp only [State.setT]
     all_goals first | exact h2 | count_close hg
   | callSubmit t =>
     simp only [next] at hn
@@ -543,8 +622,10 @@ theorem cinv_next {cfg : Cfg} {s s' : State} {l : Label} (hf : cfg.fixed = true)
     rename_i hc; simp at hc
     have hg := isIdle_get hc.1
     subst hn
-    obtain ⟨h1, h2, h3, h4⟩ := h
-    refine ⟨?_, ?_, ?_, ?_⟩ <;> simp only [State.setT]
+    obtain ⟨h1, h2, h3, h4, h5, h6⟩ := h
+    have l1 := lockN_le_one s.pLock
+    have l2 := lockN_le_one s.gLock
+    refine ⟨?_, ?_, ?_, ?_, ?_, ?_⟩ <;> simp only [State.setT]
     all_goals first | exact h2 | count_close hg
   | callSos t =>
     simp only [next] at hn
@@ -552,8 +633,10 @@ theorem cinv_next {cfg : Cfg} {s s' : State} {l : Label} (hf : cfg.fixed = true)
     rename_i hc; simp at hc
     have hg := isIdle_get hc.1
     subst hn
-    obtain ⟨h1, h2, h3, h4⟩ := h
-    refine ⟨?_, ?_, ?_, ?_⟩ <;> simp only [State.setT]
+    obtain ⟨h1, h2, h3, h4, h5, h6⟩ := h
+    have l1 := lockN_le_one s.pLock
+    have l2 := lockN_le_one s.gLock
+    refine ⟨?_, ?_, ?_, ?_, ?_, ?_⟩ <;> simp only [State.setT]
     all_goals first | exact h2 | count_close hg
   | callShutdown t =>
     simp only [next] at hn
@@ -561,8 +644,10 @@ theorem cinv_next {cfg : Cfg} {s s' : State} {l : Label} (hf : cfg.fixed = true)
     rename_i hc; simp at hc
     have hg := isIdle_get hc.1.1
     subst hn
-    obtain ⟨h1, h2, h3, h4⟩ := h
-    refine ⟨?_, ?_, ?_, ?_⟩ <;> simp only [State.setT]
+    obtain ⟨h1, h2, h3, h4, h5, h6⟩ := h
+    have l1 := lockN_le_one s.pLock
+    have l2 := lockN_le_one s.gLock
+    refine ⟨?_, ?_, ?_, ?_, ?_, ?_⟩ <;> simp only [State.setT]
     all_goals first | exact h2 | count_close hg
   | callPoolShutdown t =>
     simp only [next] at hn
@@ -570,8 +655,10 @@ theorem cinv_next {cfg : Cfg} {s s' : State} {l : Label} (hf : cfg.fixed = true)
     rename_i hc; simp at hc
     have hg := isIdle_get hc.1.1.1
     subst hn
-    obtain ⟨h1, h2, h3, h4⟩ := h
-    refine ⟨?_, ?_, ?_, ?_⟩ <;> simp only [State.setT]
+    obtain ⟨h1, h2, h3, h4, h5, h6⟩ := h
+    have l1 := lockN_le_one s.pLock
+    have l2 := lockN_le_one s.gLock
+    refine ⟨?_, ?_, ?_, ?_, ?_, ?_⟩ <;> simp only [State.setT]
     all_goals first | exact h2 | count_close hg
   | callAwait t =>
     simp only [next] at hn
@@ -579,8 +666,10 @@ theorem cinv_next {cfg : Cfg} {s s' : State} {l : Label} (hf : cfg.fixed = true)
     rename_i hc
     have hg := isIdle_get hc
     subst hn
-    obtain ⟨h1, h2, h3, h4⟩ := h
-    refine ⟨?_, ?_, ?_, ?_⟩ <;> simp only [State.setT]
+    obtain ⟨h1, h2, h3, h4, h5, h6⟩ := h
+    have l1 := lockN_le_one s.pLock
+    have l2 := lockN_le_one s.gLock
+    refine ⟨?_, ?_, ?_, ?_, ?_, ?_⟩ <;> simp only [State.setT]
     all_goals first | exact h2 | count_close hg
 
 theorem cinv_reachable {cfg : Cfg} (hf : cfg.fixed = true) {s : State} (hr : Reachable cfg s) : CInv s := by
